@@ -102,7 +102,7 @@ func (h *HTTP) request(ctx *gin.Context) {
 	if h.Config.BehindRedir {
 		ExternalIP = ctx.Request.Header.Get("X-Forwarded-For")
 	} else {
-		ExternalIP = strings.Split(ctx.Request.RemoteAddr, ":")[0]
+		ExternalIP = peerAddress(ctx.Request.RemoteAddr)
 	}
 
 	/*
